@@ -383,3 +383,38 @@ package ro
 //@   track hook.ANY callfn.ANY
 //@   ensures [a-panic-reaches-the-hook-once|C07] panicked(cb) ==> !panics && count(hook.OnUnhandledError) == 1
 //@   ensures [no-panic-no-report|C07] !panicked(cb) ==> count(hook.OnUnhandledError) == 0
+
+//@ func recoverValueToError
+//@   note what a recover handler makes of the recovered value: it runs no code of that value - a String or Error method that cannot run would panic inside the handler, after the subscription was marked closed and before its remaining finalizers (Wait's signal among them) have run
+//@   props C07 C06 C03
+//@   binds e
+//@   scope e varargs
+//@   track e.* callfn.*
+//@   ensures [runs-no-method-of-the-recovered-value|C07,C06,C03] !called(e.ANY) && !called(callfn.ANY)
+
+//@ func newObservableError
+//@   note tags the failure of a subscribe function: a new error value that wraps exactly the cause it is given (the subscriber's Error still matches the original cause with errors.Is / errors.As); nothing else is looked at or called
+//@   props C07
+//@   binds err
+//@   scope complit err
+//@   track call.* callfn.*
+//@   ensures [a-new-error-that-wraps-exactly-the-cause|C07] newobject(result) && result.err == err && trace()
+
+
+//@ func newObserverError
+//@   note tags the failure of an observer callback: a new error value that wraps exactly the cause it is given (the subscriber's Error still matches the original cause with errors.Is / errors.As); nothing else is looked at or called
+//@   props C07
+//@   binds err
+//@   scope complit err
+//@   track call.* callfn.*
+//@   ensures [a-new-error-that-wraps-exactly-the-cause|C07] newobject(result) && result.err == err && trace()
+
+
+//@ func newUnsubscriptionError
+//@   note tags the failure of a teardown: a new error value that wraps exactly the cause it is given (the subscriber's Error still matches the original cause with errors.Is / errors.As); nothing else is looked at or called
+//@   props C07
+//@   binds err
+//@   scope complit err
+//@   track call.* callfn.*
+//@   ensures [a-new-error-that-wraps-exactly-the-cause|C07] newobject(result) && result.err == err && trace()
+
